@@ -306,13 +306,17 @@ def c19_total(term, out):
     out.outcomes.add(("sev", sev.name))
     import fickling
 
-    for th in (Severity.LIKELY_SAFE, Severity.SUSPICIOUS, Severity.LIKELY_UNSAFE):
+    from .props.c06 import RawNonSeekable
+
+    # the file object kinds a caller may hand to the loader: in memory, a raw stream that cannot seek, a buffered one
+    streams = (lambda: io.BytesIO(term.data), lambda: RawNonSeekable(term.data), lambda: io.BufferedReader(RawNonSeekable(term.data)))
+    for th, mk in zip((Severity.LIKELY_SAFE, Severity.SUSPICIOUS, Severity.LIKELY_UNSAFE), streams):
         rec = _LoadsRecorder()
         orig = pickle.loads
         pickle.loads = rec
         try:
             try:
-                fickling.load(io.BytesIO(term.data), max_acceptable_severity=th)
+                fickling.load(mk(), max_acceptable_severity=th)
                 raised = None
             except UnsafeFileError as e:
                 raised = e
